@@ -51,7 +51,8 @@ unsigned vp_yepoch[VP_MAXT];
 int vp_spur[VP_MAXT];            /* remaining spurious wake-ups per thread */
 int vp_wake_reason[VP_MAXT];     /* 0 notified, 1 spurious, 2 time-out */
 unsigned vp_blockcount_[VP_MAXT]; /* how often a thread ended a context blocked (C14 uses it) */
-int vp_plain_blocked;            /* a blocking primitive was not enabled inside sequential / atomic code */
+int vp_plain_blocked;
+unsigned vp_cvwaits_[VP_MAXT];    /* condition-variable waits begun per thread */            /* a blocking primitive was not enabled inside sequential / atomic code */
 
 #ifndef VP_STEP
 #define VP_STEP(k)
@@ -64,6 +65,7 @@ static inline void vp_blocked(int t, int kind, char* a, char* b) {
   vp_blk_kind[t] = kind; vp_blk_a[t] = a; vp_blk_b[t] = b; vp_blockcount_[t]++;
 }
 static inline unsigned vp_blockcount(void) { return vp_blockcount_[vp_cur]; }
+static inline unsigned vp_cvwaits(void) { return vp_cvwaits_[vp_cur]; }
 static inline void vp_plain_block(void) {
   /* sequential code (setup, final, indirect-call targets, sequential harnesses) reached a blocking primitive
      whose condition is false: nobody else can run, so this is a self-deadlock */
@@ -174,6 +176,7 @@ static inline void vp_cv_destroy(char* cv) { (void)cv; }
 static inline void vp_cv_wait_begin(char* cv, char* mx) {
   VP_CHECK(*(int*)mx == vp_cur + 1, "condition_variable::wait without owning the mutex");
   *(int*)mx = 0;
+  vp_cvwaits_[vp_cur]++;
   ((int*)cv)[0] |= (1 << vp_cur);
   ((int*)cv)[1] &= ~(1 << vp_cur);
 }
